@@ -249,5 +249,7 @@ func buildIntrinsics() map[string]intrinsic {
 	addErrorsFmtIntrinsics(t)
 	addTimeIntrinsics(t)
 	addMiscIntrinsics(t)
+	addReflectIntrinsics(t)
+	addStubIntrinsics(t)
 	return t
 }
